@@ -17,10 +17,18 @@ def corpus(kinds=("ddl", "dml", "expr", "query", "statement")):
 
 def regression(pid):
     """minimised past disagreements / regression inputs for a property: corpus/regress/<pid>.txt, one hex per line"""
+    out = []
+    # the example input of every open known finding of this property: each listed finding is exercised (and printed) in every run
+    try:
+        import json
+        for f in json.load(open(os.path.join(ROOT, "known_findings.json"))).get("findings", []):
+            if f.get("property") == pid and f.get("status") == "open" and f.get("example_input"):
+                out.append(f["example_input"].encode())
+    except (OSError, ValueError):
+        pass
     p = os.path.join(ROOT, "corpus", "regress", pid + ".txt")
     if not os.path.exists(p):
-        return []
-    out = []
+        return out
     for line in open(p):
         line = line.split("#")[0].strip()
         if line:
